@@ -19,6 +19,7 @@ structure DS where
   expW : List Write := []              -- predicted adapter writes not yet observed
   last : List (Nat × Nat) := []        -- per goroutine: sequence number of its last dequeued line
   metaFail : Option String := none
+  lateFrom : Option Nat := none       -- adapter writes made before Shutdown returned, if some came later
   deriving Inhabited
 
 def nat? (s : String) : Option Nat := s.toNat?
@@ -197,14 +198,24 @@ def handle (d : DS) (line : String) : DS × String :=
     let bad := kvs.filterMap fun kv =>
       if kv.startsWith "quiesce=timeout" then some "quiesce-timeout"
       else if kv == "hang=1" then some "shutdown-hang"
-      else if kv.startsWith "after_return=" && kv != "after_return=0" then some "write-after-return"
       else none
-    ({ d with metaFail := bad.head? }, "ok")
+    let late := kvs.any fun kv => kv.startsWith "after_return=" && kv != "after_return=0"
+    let atRet := kvs.findSome? fun kv =>
+      if kv.startsWith "writes_at_return=" then nat? (kv.drop "writes_at_return=".length).toString else none
+    ({ d with metaFail := bad.head?, lateFrom := if late then atRet else none }, "ok")
   | ["check"] =>
     if d.expW != [] then (d, "fail write-missing")
     else match d.metaFail with
       | some m => (d, s!"fail {m}")
-      | none => (d, showVerdict (checkRun d.np (expsOf d) d.outs.reverse))
+      | none =>
+        let outs := d.outs.reverse
+        -- writes after Shutdown returned: what had to be written before the return is judged on the
+        -- writes made until then
+        match d.lateFrom with
+        | some n =>
+          if checkRun d.np (expsOf d) (outs.take n) != .pass then (d, "fail write-after-return")
+          else (d, showVerdict (checkRun d.np (expsOf d) outs))
+        | none => (d, showVerdict (checkRun d.np (expsOf d) outs))
   | ["lv", g, a, p, pk, l] =>
     match parseLevels g a p, nat? l with
     | some lv, some li =>
